@@ -36,9 +36,39 @@ def _flags(R, G, t, p):
     return fl
 
 
+def _link_exclusion_case(R, G, t):
+    """an exclusion whose `**` spans a symlinked directory while the inclusion reaches files through the link by written
+    segments (added after seeded change C04f: exclusions were symlink-checked by globmatch but not by glob)"""
+    links = [rel for rel, kind, _ in t.desc if kind == 'link']
+    if not links or not t.names:
+        return None
+    ln = R.choice(links)
+    names = sorted(t.names)
+    pos = R.choice(['*/*', '*/*/*', G.escape(ln) + '/*', G.escape(ln) + '/**', '***', '**/*', '*/**', '*'])
+    nm = G.escape(R.choice(names))
+    ex = R.choice(['**/' + nm, '**/*', '**/' + nm + '/**', '*/**', '**', '**/' + nm + '/*', G.escape(ln.split('/')[0]) + '/**'])
+    fl = G.GLOBSTAR
+    for b, pr in ((G.EXTGLOB, 0.5), (G.DOTGLOB, 0.4), (G.GLOBSTARLONG, 0.3), (G.FOLLOW, 0.1), (G.MARK, 0.15), (G.NODIR, 0.1)):
+        if R.random() < pr:
+            fl |= b
+    if t.cyclic:
+        fl &= ~G.FOLLOW
+        if '***' in pos:
+            fl &= ~G.GLOBSTARLONG
+    mode = R.choice(['root_dir', 'root_dir', 'cwd', 'dir_fd'])
+    if R.random() < 0.6:
+        return K.Case(pos, fl, [ex], mode)
+    return K.Case([pos, '!' + ex], fl | G.NEGATE, None, mode)
+
+
 def _cases(R, G, t, n):
     out = []
     for _ in range(n):
+        if R.random() < 0.15:
+            c = _link_exclusion_case(R, G, t)
+            if c is not None:
+                out.append(c)
+                continue
         if R.random() < 0.8:
             pats = K.gen_pattern(R, G, t)
         else:
